@@ -19,7 +19,7 @@ import shutil
 from mc import core, srv
 
 LEVEL = "exploration"
-TOKEN = "secret-T0ken-" + "0123456789abcdefghijklmnopqrstuvwxyzABCDEFGHIJKLMNOPQRSTUVWXYZ-_.~+"      # 78 characters (longer than any block size one might pad or cut to)
+TOKEN = "secret-T0ken-" + "0123456789abcdefghijklmnopqrstuvwxyzABCDEFGHIJKLMNOPQRSTUVWXYZ-_.~"      # 77 characters (longer than any block size one might pad or cut to), with the punctuation tokens may carry
 OTHER_TOKEN = "0ther-Servers-t0ken"     # the valid token of ANOTHER BptkServer object living in the same process
 SM = "smSrv"
 PUBLIC = {"/", "/healthy", "/metrics", "/full-metrics"}
@@ -44,6 +44,7 @@ CREDENTIALS = [
     ("same-first-64-characters", "Bearer " + TOKEN[:64] + "Z" * (len(TOKEN) - 64)),
     ("first-64-characters-only", "Bearer " + TOKEN[:64]),
     ("same-last-64-characters", "Bearer " + "Z" * (len(TOKEN) - 64) + TOKEN[-64:]),
+    ("dot-replaced", "Bearer " + TOKEN.replace(".", "x")),
     ("token-plus-latin1-nbsp", "Bearer " + TOKEN + "\xa0"),
     ("latin1-character-inside", "Bearer " + TOKEN[:3] + "\xe9" + TOKEN[3:]),
     ("latin1-character-in-front", "Bearer \xff" + TOKEN),
